@@ -400,6 +400,15 @@ def battery(repo: Repo, ctx, rule: str, prefixes: Iterable[str],
                      hits[:3]) + f' -- {consequence}',
            f'{hits[0][0].module.rel()}:{hits[0][1].lineno}' if hits else '',
            sample=f'{n} chains', nontrivial=bool(n))
+    n, hits = invariant_filters(repo, prefixes)
+    ctx.ob(rule, 'slips:loop-invariant-filter', not hits,
+           '; '.join(f'{f.qualname}: the filter `{t}` of a comprehension '
+                     f'over `{it}` does not mention the element it is '
+                     f'supposed to select (it tests the same thing for '
+                     f'every element: one identifier slipped)'
+                     for f, t, it, _n in hits[:3]) + f' -- {consequence}',
+           f'{hits[0][0].module.rel()}:{hits[0][3].lineno}' if hits else '',
+           sample=f'{n} comprehension filters', nontrivial=bool(n))
     # (unused_locals() is deliberately not armed: leaving a value unused is
     # behaviour-preserving, so it cannot be a violation signal)
     n, hits = loop_slips(repo, prefixes)
@@ -407,6 +416,60 @@ def battery(repo: Repo, ctx, rule: str, prefixes: Iterable[str],
            '; '.join(f'{f.qualname}:{l.lineno - f.node.lineno}: {why}'
                      for f, l, why in hits[:3]) + f' -- {consequence}',
            hits[0][0].loc if hits else '', sample=f'{n} loops')
+
+
+# comprehension filters that call something without mentioning the element:
+# audited instances of the tree the rules were written against (the test is
+# about the container's owner, deliberately the same for every element)
+INVARIANT_FILTER_OK = {
+    ('edb.schema.functions', 'cur_type.issubclass(schema, f_type)'),
+    ('edb.server.compiler.ddl', 'src.is_material_object_type(schema)'),
+}
+
+
+def invariant_filters(repo: Repo, prefixes: Iterable[str]):
+    """(function, filter text, iterable text, node) for every conjunct of a
+    comprehension filter that contains a call and mentions none of the
+    comprehension's own variables."""
+    hits = []
+    n = 0
+    for m in repo.modules.values():
+        if not m.name.startswith(tuple(prefixes)):
+            continue
+        for f in repo._funcs_of(m):
+            if f.parent is not None:
+                continue
+            for node in ast.walk(f.node):
+                if not isinstance(node, (ast.ListComp, ast.SetComp,
+                                         ast.GeneratorExp, ast.DictComp)):
+                    continue
+                tg = set()
+                for g in node.generators:
+                    tg |= {x.id for x in ast.walk(g.target)
+                           if isinstance(x, ast.Name)}
+                for g in node.generators:
+                    for cond in g.ifs:
+                        n += 1
+                        conj = cond.values if isinstance(
+                            cond, ast.BoolOp) and isinstance(
+                            cond.op, ast.And) else [cond]
+                        if len(conj) < 2 and len(node.generators) == 1:
+                            # a lone invariant filter selects all or
+                            # nothing: unusual but a decision, not a slip
+                            # between siblings
+                            pass
+                        for c in conj:
+                            names = {x.id for x in ast.walk(c)
+                                     if isinstance(x, ast.Name)}
+                            if names & tg or not any(
+                                    isinstance(x, ast.Call)
+                                    for x in ast.walk(c)):
+                                continue
+                            t = norm(c)
+                            if (m.name, t) in INVARIANT_FILTER_OK:
+                                continue
+                            hits.append((f, t[:60], norm(g.iter)[:40], node))
+    return n, hits
 
 
 SCOPE = {
@@ -422,7 +485,7 @@ SCOPE = {
             'changes'),
     'C05': (['edb.pgsql.delta', 'edb.pgsql.types', 'edb.pgsql.common',
              'edb.pgsql.schemamech', 'edb.pgsql.dbops',
-             'edb.pgsql.deltadbops'],
+             'edb.pgsql.deltadbops', 'edb.pgsql.inheritance'],
             'backend storage diverges from the schema'),
     'C06': (['edb.edgeql.compiler.inference', 'edb.ir'],
             'an inferred bound is unsound'),
